@@ -17,6 +17,13 @@ CLAIMS = {
 CLAIMS['C18'] = dict(tech=TECH_K, ref='DESIGN.md §4 C18',
    text='For ALL values of bool, u8..u64, i8..i64, usize/isize, Option, tuples (arity 0..5), arrays, Vec<u16> (len 0,1,3), VecDeque (wrapped ring buffer), LinkedList, Rc/Arc/Cow/slices, BigInt<2>, mode-pinning wrappers around a type whose encodings differ, and derived structs (named, tuple, nested-tuple, generic): round trip in a symbolically chosen (compress, validate) mode, bytes written == serialized_size, truncated encodings are Err. Malformed input: EVERY byte string of length 0..=10/12 offered to the scalar, Option, tuple, array, Vec<u8>, Vec<u32>, VecDeque<u16>, LinkedList<u8> deserializers: Ok or Err, no panic, no capacity overflow / allocation driven by the untrusted length prefix; invalid bool bytes and invalid inner values (checked wrappers, derived Valid) are rejected.',
    note=NOTE + 'String (UTF-8 validation) and BTreeMap/BTreeSet harnesses exceed the memory cap under CBMC and are thorough-tier attempts only (not counted); BigUint thorough attempt. Element types are small integers.')
+PLAIN = ' Toy curves are configurations of the REAL ark_ec models over F_13 / F_17 with a table-backed `FpConfig` backend defined in the harness crate (so the solver effort goes into the curve code, not Montgomery arithmetic); oracle tables (points, addition, orders, subgroup, scalar multiples) are computed by brute force in Python from the curve equation.'
+CLAIMS['C03'] = dict(tech=TECH_K, ref='DESIGN.md §4 C03',
+   text='On toy short-Weierstrass curves (a=0 order 19; a!=0 order 17; cofactor 4 with a point of order two) and twisted-Edwards curves (complete, cofactor 4 and (thorough) 8: whole curve; incomplete law: prime-order subgroup) the solver decides for ALL ordered pairs of points (identity, P+P, P+(-P), 2-torsion) and ALL non-zero projective rescalings of both operands: Projective +, +=, -, mixed addition in both operand orders, Affine+Affine, double, neg, into_affine / From<Affine>, projective equality independent of the representative and Projective==Affine, against the brute-force group-law table; results are exactly the expected point (hence on the curve).',
+   note=NOTE + PLAIN + ' normalize_batch / Sum harnesses exceed the CBMC memory cap and are thorough-tier attempts only. Curves over >= 255-bit fields and over extension fields are outside the claim (same generic code).')
+CLAIMS['C05'] = dict(tech=TECH_K, ref='DESIGN.md §4 C05',
+   text='The real generic VariableBaseMSM code is run over the free abelian group Z^L (harness crate, checked i64 coordinates) with unit-vector bases, so the result must be exactly the vector of integer scalars. Both flavours are reached through the public trait: NEGATION_IS_CHEAP=true (msm_bigint_wnaf + make_digits, as every shipped group) and =false (plain-bucket msm_bigint). Decided for ALL scalars of F_13 (4 bits, two windows) at lengths 1 and 2 (3 thorough), F_61 (6 bits: carry folded into the top digit reaches 2^c), F_127 thorough: msm, msm_unchecked, msm_bigint; mismatched lengths -> Err(min) / truncation; repeated and identity bases; ChunkedPippenger for buffer sizes 1..4 with 2-4 add calls (flush inside add, several flushes, flush at finalize).',
+   note=NOTE + 'Parametricity assumption (stated, checked by reading): the MSM code touches group elements only through +, -, double, zero, so correctness on free generators carries to all bases. Scalar fields are 4-7 bits; window-size switch at 32 inputs, msm_chunks multi-chunk streams, HashMapPippenger (thorough attempt), empty input (thorough attempt: CBMC memory) and >16-bit scalar fields are outside the quick claim. Per-loop unwind bounds (--unwindset) with unwinding assertions on.')
 NA = {
  'C06': 'Pairings: >= 10^4 full-width symbolic 64x64 multiplications per pairing and no tractable instantiation of the shipped models; one 4-limb Montgomery multiplication is already beyond both solver back ends (DESIGN.md §4 C06).',
 }
